@@ -296,7 +296,9 @@ check("C18",
            "of the 256 single bytes, 225 ordered pairs and 45 mixed words from {0,1,2,3,7,8,9,10,13,27,\\,\",a,0x80,0xff}, bare / as "
            "operand / as statement; (c) 5 delimiters x 5 contents x 3 contexts; (d) EVERY statement tree of depth <= 3 over 18 forms "
            "(86190 trees, from initial indentation 0 and 6), plus in thorough every unary form over every depth-3 tree and every "
-           "binary form pairing a depth-3 tree with a leaf. Oracle per case: outcome is completion or std::logic_error (never SIGSEGV, "
+           "binary form pairing a depth-3 tree with a leaf; (e) 11 kinds of complete declarations (var, field, bit-field, alias, class with "
+           "bases, union, enum, namespace, function with body and handlers, template, nested class) x 0..3 members x 4 flavours, through "
+           "xpr_decl, xpr_stmt and xpr_expr from initial indentation 0 and 6. Oracle per case: outcome is completion or std::logic_error (never SIGSEGV, "
            "timeout, runaway output or another exception); stream flags/fill/width/precision unchanged; a nesting level, a position "
            "and a file/line/column written afterwards through the same printer read ' 10 9 ' and 'F8:64:100'; no byte < 0x20 except "
            "newline (nor 0x7f) that is not in a spelling of the graph; Printer::indent() restored after each completed top-level "
